@@ -76,8 +76,9 @@ def run(ck):
         ck.evaluations += 1
         cell = p.get("cell", "random")
         rep = {"program": {"src": p["src"][:4000], "cell": cell, "inputs": p.get("inputs", [])}, "real": o}
-        if (o.get("died") or o.get("hang")) and not p.get("raw") and '"cycle"' in json.dumps(outs.get(p["id"])):
-            # a random program that builds a container containing itself (TengoSem meets the cycle): the recorded defect of the
+        if (o.get("died") or o.get("hang")) and not p.get("raw") and ('"cycle"' in json.dumps(outs.get(p["id"])) or (o.get("note") or {}).get("cyclic_globals")):
+            # a random program that builds a container containing itself (TengoSem meets the cycle, or the driver found one among the globals
+            # after the run and said so before the follow-up calls traversed it): the recorded defect of the
             # cyclic-* cells, reached by a generated program; death and "still recursing at the deadline" are the same failure
             ck.violation("fatal:cyclic-random", "a random program builds a self-containing container and its traversal takes the host down\n%s" % p["src"][:600], rep)
             continue
